@@ -49,6 +49,9 @@ type unit struct {
 	mutating map[string]bool
 	// methods of the receiver translated in ANOTHER unit: as a value `r.m` is `recvMethod_m`, as a call `recv_m args`
 	methods map[string]bool
+	// a local whose address is taken (`var x T; f(&x)`) is desugared into a heap cell (units_errs.go); without this option
+	// `&x` of a local is the value `goAddr x` whose meaning the primitives give
+	addrCells bool
 	// make([]T, n) is an ACTION `goMake_T n` (the primitives may give the new slice an identity), not the value goMakeZeros n
 	makeAction bool
 	// func() T { return <expr with calls> } is defunctionalised like the statement closures, as a VALUE closure (units_fsnew.go)
@@ -385,6 +388,9 @@ func (t *tr) expr(e ast.Expr) string {
 			if cl, ok := x.X.(*ast.CompositeLit); ok {
 				return t.composite(cl)
 			}
+			if id, ok := x.X.(*ast.Ident); ok && t.locals[id.Name] {
+				return "(goAddr " + lname(id.Name) + ")" // &x of a local variable: the primitives say what a pointer to it is
+			}
 		}
 		bad(e, "unary operator")
 	case *ast.CompositeLit:
@@ -562,6 +568,17 @@ func (t *tr) composite(cl *ast.CompositeLit) string {
 	switch ty := cl.Type.(type) {
 	case *ast.MapType:
 		return t.mapLit(cl)
+	case *ast.ArrayType:
+		if ty.Len == nil { // a slice literal []T{a, b}: the list of its elements, in source order
+			var els []string
+			for _, el := range cl.Elts {
+				if _, isKV := el.(*ast.KeyValueExpr); isKV {
+					bad(cl, "keyed slice literal")
+				}
+				els = append(els, t.expr(el))
+			}
+			return "[" + strings.Join(els, ", ") + "]"
+		}
 	case *ast.Ident:
 		tname = ty.Name
 	case *ast.SelectorExpr:
@@ -1224,6 +1241,11 @@ func main() {
 	for _, im := range file.Imports {
 		p := strings.Trim(im.Path.Value, "\"")
 		n := p[strings.LastIndex(p, "/")+1:]
+		if len(n) >= 2 && n[0] == 'v' && strings.Trim(n[1:], "0123456789") == "" && strings.Contains(p, "/") {
+			// a major-version suffix (".../circuit/v4") is not the package name: the element before it is
+			q := p[:strings.LastIndex(p, "/")]
+			n = q[strings.LastIndex(q, "/")+1:]
+		}
 		if im.Name != nil {
 			n = im.Name.Name
 		}
@@ -1246,7 +1268,9 @@ func main() {
 		if rt != u.recv {
 			continue
 		}
-		desugarAddrTaken(fd) // units_errs.go: a local whose address is taken lives in a cell
+		if u.addrCells {
+			desugarAddrTaken(fd) // units_errs.go: a local whose address is taken lives in a cell
+		}
 		found[fd.Name.Name] = u.translate(fd, pkgs, funcs)
 	}
 	for _, f := range u.funcs {
